@@ -60,7 +60,7 @@ func SeqProfileFor(name string, seed int64) SeqProfile {
 		p.PSchema = 0.1
 		p.PRollback, p.PFailIns = 0.05, 0
 	case "c19": // triggers: puts, merges, deletes, rollbacks; created and dropped mid-history
-		p.Cols = []ColDesc{{"a", "int", []string{"add", "affine", "replace"}[r.Intn(3)], numRepr()}, {"s", "str", []string{"", "concat"}[r.Intn(2)], "string"}}
+		p.Cols = []ColDesc{{"a", "int", []string{"add", "affine", "replace", "sat"}[r.Intn(4)], numRepr()}, {"s", "str", []string{"", "concat"}[r.Intn(2)], "string"}}
 		p.Trigs = [][2]string{{"ta", "a"}, {"ts", "s"}, {"ta2", "a"}}
 		p.PSchema = 0.2
 		p.PRollback, p.PFailIns = 0.2, 0.1
